@@ -580,6 +580,10 @@ class Lexer:
         stringify_paths_tokens: list[Token] = []
         _expected_stringify_index = 3
         if command[3].string == "extends":
+            if len(command) < 5:
+                raise JMCSyntaxException(
+                    "Expected (", command[3], tokenizer, col_length=True
+                )
             if command[4].token_type != TokenType.PAREN_ROUND:
                 raise JMCSyntaxException("Expected (", command[4], tokenizer)
             extends_from = convention_jmc_to_mc(
@@ -587,6 +591,13 @@ class Lexer:
             )
             _expected_stringify_index += 2
         elif command[_expected_stringify_index].string == "stringify":
+            if len(command) < _expected_stringify_index + 2:
+                raise JMCSyntaxException(
+                    "Expected (",
+                    command[_expected_stringify_index],
+                    tokenizer,
+                    col_length=True,
+                )
             if (
                 command[_expected_stringify_index + 1].token_type
                 != TokenType.PAREN_ROUND
